@@ -127,6 +127,7 @@ def run_property(prop, tier, seed, only_kernel=None, verbose=True):
     samples = []
     bounded = []
     per_job = []
+    seen_reasons = {}
     solver_s = 0.0
     for (m, kb, wd, cfile, j, r) in results:
         jn = "%s.%s" % (m.ID, j.name)
@@ -135,7 +136,12 @@ def run_property(prop, tier, seed, only_kernel=None, verbose=True):
                         "failed": [o["name"] for o in r.failed], "time_s": round(r.time_s, 2),
                         "enforce": j.enforce, "replace": j.replace, "loop_contracts": j.loop_contracts,
                         "unwind": j.unwind, "note": j.note})
-        if verbose:
+        rkey = " ".join(r.reason.split())[:100]
+        if r.status == "undecided" and rkey in seen_reasons:
+            seen_reasons[rkey] += 1
+        elif verbose:
+            if r.status == "undecided":
+                seen_reasons[rkey] = 1
             out_lines.append("  %-44s %-8s %-9s %3d obligations, %d failed, %.1fs %s" % (
                 jn, j.kind, r.status, len(r.obligations), len(r.failed), r.time_s, " ".join(r.reason.split())[:160]))
         for w in r.warnings:
@@ -148,7 +154,7 @@ def run_property(prop, tier, seed, only_kernel=None, verbose=True):
         is_known = (kind == "known" and j.finding in known and known[j.finding]["property"] == prop)
         if kind == "known" and not is_known:
             kind = "proof" if j.unwind is None else "bounded"
-        if j.loop_contracts and not any("loop_invariant_step" in o["name"] or "loop invariant" in o["description"].lower() or "invariant" in o["name"] for o in r.obligations):
+        if j.loop_contracts and not any("loop_invariant_step" in o["name"] for o in r.obligations):
             machinery.append("%s: loop contract silently dropped (no loop_invariant_step obligation)" % jn)
             continue
         if kind == "cover":
@@ -198,6 +204,9 @@ def run_property(prop, tier, seed, only_kernel=None, verbose=True):
         if r.failed:
             violations.append(handle_failure(prop, m, kb, wd, cfile, j, r, r.failed, ctx))
 
+    for rk, cnt in seen_reasons.items():
+        if cnt > 1:
+            out_lines.append("  (+%d more job(s) undecided for the same reason: %s)" % (cnt - 1, rk[:80]))
     # evidence
     wall = time.time() - t0
     funcs = []
